@@ -75,12 +75,12 @@ void EpollLoop::runLoop(Mode mode)
         RECORD_SCOPE();
         beginLoopProcess();
 
-        handleExpiredTimers();
-
-        //! 回调中可能销毁本轮其它就绪fd上的最后一个事件，令其共享数据被回收；
+        //! 回调（包括定时器回调）中可能销毁本轮其它就绪fd上的最后一个事件，令其共享数据被回收；
         //! 先持有引用，保证本轮用到的共享数据在分发期间一直有效
         for (int i = 0; i < fds; ++i)
             ++static_cast<EpollFdSharedData*>(events.at(i).data.ptr)->ref;
+
+        handleExpiredTimers();
 
         for (int i = 0; i < fds; ++i) {
             epoll_event &ev = events.at(i);
